@@ -283,13 +283,24 @@ func checkC08(s *ev.Shard, x string) *rp.Fail {
 			return f
 		}
 	}
+	// lexing on its own must terminate too: the parser may stop pulling tokens at its own
+	// error, a direct client of the lexer reads on up to the first EOF / ERROR token
+	toks, overflow := lexAll(x, 4*len(x)+16)
+	if overflow {
+		return &rp.Fail{Sig: "token-stream-unbounded", Msg: fmt.Sprintf("lexing %q yields more than %d tokens without EOF or ERROR", x, 4*len(x)+16), Size: len(x)}
+	}
+	if last := toks[len(toks)-1]; last.Type == token.ERROR && err1 != nil {
+		if f := checkErrText(x, last.Value); f != nil {
+			return f
+		}
+	}
 	if s != nil {
 		if err1 != nil {
 			s.Class("rejected")
 		} else {
 			s.Class("accepted")
 		}
-		if toks, _ := lexAll(x, 4*len(x)+16); len(toks) >= 3 {
+		if len(toks) >= 3 {
 			s.NonTrivial(x)
 		}
 	}
